@@ -37,6 +37,13 @@ func newStepReader(data []byte, cutAt int, failErr error) *stepReader {
 	return s
 }
 
+// Close: the reader is an io.Closer whose Close takes a moment (a network connection, say): everything that must be in
+// place when Done() fires has to be in place BEFORE the reader is closed
+func (s *stepReader) Close() error {
+	time.Sleep(15 * time.Millisecond)
+	return nil
+}
+
 func (s *stepReader) release(n int) {
 	s.mu.Lock()
 	atomic.AddInt64(&s.limit, int64(n))
